@@ -25,10 +25,31 @@ class PromiseCore : public std::conditional_t<Shared, SharedCore<V, E>, UniqueCo
   using Base = std::conditional_t<Shared, SharedCore<V, E>, UniqueCore<V, E>>;
 
   explicit PromiseCore(Func&& f) : F{std::forward<Func>(f)} {
+    this->_self = {};
   }
 
  private:
+  // Until Call() hands the promise out nobody can be connected to this core, so Here/Next can only mean that this
+  // core is the head of a lazy chain (LazyContract) started by the step or coroutine that received the Task.
+  [[nodiscard]] InlineCore* Here(InlineCore& caller) noexcept final {
+    if (this->_self.unwrapping == 0) {
+      this->_executor->Submit(*this);
+      return nullptr;
+    }
+    return Base::Here(caller);
+  }
+#if YACLIB_SYMMETRIC_TRANSFER != 0
+  [[nodiscard]] yaclib_std::coroutine_handle<> Next(InlineCore& caller) noexcept final {
+    if (this->_self.unwrapping == 0) {
+      this->_executor->Submit(*this);
+      return Noop<true>();
+    }
+    return Base::Next(caller);
+  }
+#endif
+
   void Call() noexcept final {
+    this->_self.unwrapping = 1;  // started
     PromiseT promise{CorePtrT{NoRefTag{}, this}};
     try {
       // We need to move func with capture on stack, because promise can be Set before func return
